@@ -8,9 +8,10 @@ All theorems hold for every glob matcher `E.glob`, in particular for the modelle
 -/
 import InToto.Proofs.Rules
 import InToto.Proofs.RulesMore
+import InToto.Proofs.RulesItems
 
 namespace InToto.C03
-open InToto InToto.Rules InToto.RulesSpec InToto.RulesProofs
+open InToto InToto.Rules InToto.RulesSpec InToto.RulesProofs InToto.RulesItems
 
 /-- C03 (interpreter = specification): on links whose artifact names are clean paths, the
     rule loop of `VerifyArtifacts` succeeds exactly when every rule parses and the spec's queue
@@ -135,5 +136,39 @@ example :
                           [lit% "DISALLOW", lit% "*"]],
          expProducts := [] }] ctx).isOk = false := by
   decide
+
+/-- C03 AT THE LEVEL OF `VerifyArtifacts` (one step or inspection): on clean links the item is
+    accepted exactly when it has a link, both its rule lists parse, and the specification's queue
+    algorithm accepts the material rules over its materials and the product rules over its
+    products, against the created / deleted / modified sets of its own link; the links are untouched -/
+theorem item_verified_iff_spec (glob : Str → Str → Bool) (ctx : Ctx) (h : CleanCtx ctx) (item : Item) :
+    (∀ ctx', verifyItem glob ctx item = .ok ctx' → ctx' = ctx) ∧
+    ((verifyItem glob ctx item).isOk = true ↔ ItemOK glob ctx item) :=
+  verifyItem_spec glob ctx h item
+
+/-- C03 (all steps, all inspections): `VerifyArtifacts` accepts exactly when EVERY item meets the specification -/
+theorem all_items_verified_iff_spec (glob : Str → Str → Bool) (items : List Item) (ctx : Ctx) (h : CleanCtx ctx) :
+    (∀ ctx', verifyArtifacts glob items ctx = .ok ctx' → ctx' = ctx) ∧
+    ((verifyArtifacts glob items ctx).isOk = true ↔ ∀ item ∈ items, ItemOK glob ctx item) :=
+  verifyArtifacts_spec glob items ctx h
+
+/-- C03 (created / deleted / modified are what their names say) -/
+theorem difference_sets_exact (l : LinkArts) (hm : CleanArts l.materials) (hp : CleanArts l.products) (a : Str) :
+    (a ∈ createdOf l ↔ a ∈ artsKeys l.products ∧ a ∉ artsKeys l.materials) ∧
+    (a ∈ deletedOf l ↔ a ∈ artsKeys l.materials ∧ a ∉ artsKeys l.products) ∧
+    (a ∈ modifiedOf l ↔ a ∈ artsKeys l.materials ∧ a ∈ artsKeys l.products ∧ artsGet l.materials a ≠ artsGet l.products a) :=
+  difference_sets l hm hp a
+
+/-- C03: an item without a link (or whose payload is not a link) fails -/
+theorem item_without_link_is_error (glob : Str → Str → Bool) (ctx : Ctx) (item : Item)
+    (h : lookup item.name ctx = none ∨ lookup item.name ctx = some none) :
+    (verifyItem glob ctx item).isOk = false :=
+  item_without_link_fails glob ctx item h
+
+/-- C03 (and C10): on clean links the verdict does not depend on the order of the items -/
+theorem item_order_irrelevant (glob : Str → Str → Bool) (items₁ items₂ : List Item) (ctx : Ctx) (h : CleanCtx ctx)
+    (hp : items₁.Perm items₂) :
+    (verifyArtifacts glob items₁ ctx).isOk = (verifyArtifacts glob items₂ ctx).isOk :=
+  verifyArtifacts_perm glob items₁ items₂ ctx h hp
 
 end InToto.C03
